@@ -1151,10 +1151,12 @@ class Distributions(object):
                                    [C01, C11, C12],
                                    [C02, C12, C22]])
 
-        # overall scale of the weights (for scale-independent rejection below)
-        wscale = 1 if self.weights is None else np.abs(self.weights).max()
-        if not (wscale > 0 and np.isfinite(wscale)):
-            wscale = 1
+        def scaled(inverse, p):
+            # (scaled by the total weight at this radius, so that the
+            # determinants do not under- or overflow for very small or large
+            # weights)
+            s = p[0] if p[0] > 0 and np.isfinite(p[0]) else 1
+            return inverse(p / s) / s
 
         def invn(P):
             C = np.zeros((self.N, self.N))
@@ -1164,7 +1166,8 @@ class Distributions(object):
                     # due to numerical errors, inv() might "succeed" even for
                     # some degenerate matrices, so try to reject them manually
                     # (FP precision is only ~15 digits)
-                    if np.max(Pi) * wscale > 1e14:
+                    # (relative to the total weight at this radius)
+                    if np.max(Pi) * abs(P[0, 0]) > 1e14:
                         raise np.linalg.LinAlgError
                     C[:m, :m] = Pi  # (this is faster than np.pad)
                     return C
@@ -1179,11 +1182,9 @@ class Distributions(object):
             pc[pc == 0] = np.inf  # to obtain inv([[0]]) = [[0]]
             self.C = 1 / pc[:, :, None]  # (new dimension to make matrices)
         elif self.N == 2:
-            # (scaled, so that the determinants do not under- or overflow
-            # for very small or large weights)
-            self.C = np.array([inv2(p / wscale) for p in pc]) / wscale
+            self.C = np.array([scaled(inv2, p) for p in pc])
         elif self.N == 3:
-            self.C = np.array([inv3(p / wscale) for p in pc]) / wscale
+            self.C = np.array([scaled(inv3, p) for p in pc])
         else:
             self.C = np.array([invn(hankel(p[:self.N], p[self.N - 1:]))
                                for p in pc])
